@@ -446,6 +446,25 @@ var corruptions = []corruption{
 		m["parentHash"] = otherHash
 		return true
 	}},
+	{"break-parent-odd-length", func(ex *simnode.Exchange, i int, r *core.Rand) bool {
+		// the parent hash of a block, or the hash of the block before it, is NOT 32 bytes long (and so does not
+		// link): 31 bytes, an address-sized 20, 33, or empty
+		if i == 0 || i >= len(ex.Responses) || ex.Requests[0].Method != "eth_getBlockByNumber" || len(ex.Requests) == 2 && ex.Requests[1].Method == "eth_getLogs" {
+			return false
+		}
+		m := resultMap(ex.Responses[i])
+		prev := resultMap(ex.Responses[i-1])
+		if m == nil || prev == nil {
+			return false
+		}
+		odd := "0x" + strings.Repeat("cd", core.Pick(r, []int{31, 20, 33, 0, 1}))
+		if r.Bool() {
+			m["parentHash"] = odd
+		} else {
+			prev["hash"] = odd
+		}
+		return true
+	}},
 	{"header-of-other-fork", func(ex *simnode.Exchange, i int, r *core.Rand) bool {
 		// the header that accompanies the logs batch carries another hash
 		if !(len(ex.Requests) == 2 && ex.Requests[1].Method == "eth_getLogs") || i != 0 {
